@@ -768,10 +768,26 @@ func (s *Sim) eligibleNodes() []int {
 	var out []int
 	for _, ns := range s.nodes {
 		if s.isLive(ns) && !ns.removed && ns.view.ok && ns.view.lead != 0 {
+			if s.k.OnePerNode && s.busy(ns.id) {
+				continue
+			}
+			if s.k.OneAtATime && s.busy(0) {
+				continue
+			}
 			out = append(out, ns.id)
 		}
 	}
 	return out
+}
+
+// busy: some client has a command outstanding on that node.
+func (s *Sim) busy(node int) bool {
+	for _, c := range s.cs {
+		if c.cur != nil && (c.cur.Node == node || node == 0) {
+			return true
+		}
+	}
+	return false
 }
 
 func (s *Sim) clientsDone() bool {
@@ -917,6 +933,12 @@ func (s *Sim) nextTick() time.Duration {
 func (s *Sim) deathSig() string {
 	p := s.prop
 	switch {
+	case s.k.Burst:
+		return p + "/data-race/concurrent-clients-one-node"
+	case s.sc.Variant == "race" && !s.k.OneAtATime:
+		return p + "/data-race/clients-on-several-nodes"
+	case s.sc.Variant == "race":
+		return p + "/data-race/one-command-at-a-time"
 	case s.listSeen && s.snapshotDue():
 		return p + "/node-death/snapshot-of-list"
 	case s.rconfDel && s.rconfDelHighest:
@@ -1090,6 +1112,35 @@ func (s *Sim) applySend(ci int) {
 	node := s.pickNode(c, cmd)
 	s.issue(c, cmd.Args, node, c.next, false, false)
 	c.next++
+	if s.k.Burst {
+		// race sweep: every other client that can send does so in the same
+		// window, so that several connection handlers of a node run at once
+		for _, o := range s.cs {
+			if o == c || o.cur != nil || o.next >= len(o.prog.Cmds) {
+				continue
+			}
+			oc := &o.prog.Cmds[o.next]
+			elig := s.eligibleNodes()
+			if len(elig) == 0 {
+				break
+			}
+			n := oc.Node
+			if n == 0 {
+				n = elig[0]
+			}
+			ok := false
+			for _, e := range elig {
+				if e == n {
+					ok = true
+				}
+			}
+			if !ok {
+				continue
+			}
+			s.issue(o, oc.Args, n, o.next, false, false)
+			o.next++
+		}
+	}
 }
 
 func (s *Sim) issue(c *clientState, args []B, node int, idx int, final, probe bool) *OpRec {
@@ -1139,6 +1190,19 @@ func (s *Sim) stopIncarnation(inc *incarnation) {
 	for _, c := range inc.conns {
 		c.clientClose()
 	}
+	synctest.Wait()
+	// handlers whose proposal will never commit wait forever (HandleCluster
+	// has no way out): release them one at a time so that they see the EOF of
+	// their connection and return, and nothing of this run stays behind
+	if inc.vn != nil {
+		for _, ch := range inc.vn.PendingCallbackChans() {
+			select {
+			case ch <- nil:
+			default:
+			}
+			synctest.Wait()
+		}
+	}
 	func() {
 		defer func() { recover() }()
 		inc.vn.Stop()
@@ -1164,6 +1228,23 @@ func (s *Sim) teardown() {
 	}
 	s.rootCancel()
 	synctest.Wait()
+	// whatever goroutine is still parked (a parser whose handler is gone) must
+	// not keep the run's memory alive
+	s.mu.Lock()
+	for _, inc := range s.incs {
+		for _, c := range inc.conns {
+			c.mu.Lock()
+			c.inc = nil
+			c.in, c.out = nil, nil
+			c.mu.Unlock()
+		}
+		inc.conns, inc.outbox, inc.vn, inc.tr = nil, nil, nil, nil
+	}
+	s.shadow.dur = map[uint64][]byte{}
+	s.dumpAt = nil
+	s.links = map[[2]uint64]*link{}
+	s.byTransport = map[*rafthttp.Transport]*incarnation{}
+	s.mu.Unlock()
 }
 
 func itoa(i int) string { return strconv.Itoa(i) }
